@@ -39,8 +39,20 @@ def main():
     out = None
     summaries = []
     held = []
+    late = []
     for i, spec in enumerate(calls):
-        r = session.run(spec, obs='off', clean_globals=False, check_args=True)
+        reuse = None
+        if spec.get('reuse_route_objects') and held:
+            # the caller edits the route dicts of its previous call in place and passes the same list objects again: whatever the
+            # previous call's arguments should still be is checked now, and those two arguments are then released from the later re-check
+            live, frozen = held[-1]
+            now = session._freeze(live)
+            bad = [k for k in now if now[k] != frozen[k]]
+            if bad:
+                late.append(dict(call=len(held) - 1, of=len(calls), modified=bad))
+            reuse = dict(routes=live['routes'], data_routes=live['data_routes'])
+            held[-1] = ({k: v for k, v in live.items() if k not in ('routes', 'data_routes')}, {k: v for k, v in frozen.items() if k not in ('routes', 'data_routes')})
+        r = session.run(spec, obs='off', clean_globals=False, check_args=True, reuse_args=reuse)
         held.append(r.pop('_live_args'))
         fin = r['final'] or {}
         summ = dict(error=r['error'] and r['error']['type'], n_orders=len(r['orders']), n_trades=len(fin.get('trades', [])))
@@ -51,7 +63,6 @@ def main():
                        trades=[{k: v for k, v in t.items()} for t in fin.get('trades', [])],
                        accounts=fin.get('accounts'), daily_balance=fin.get('daily_balance'), args_modified=r.get('args_modified'))
     # arguments of EARLIER calls must still be what the caller passed after all later calls have run
-    late = []
     for i, (live, frozen) in enumerate(held):
         now = session._freeze(live)
         bad = [k for k in now if now[k] != frozen[k]]
